@@ -185,6 +185,12 @@ func propC19(c *Ctx) {
 		}
 	})
 
+	c.Rule("C19.R5", func() {
+		for _, hn := range []string{"BridgeCreated", "BridgeChallengerUpdated", "BridgeMetadataUpdated"} {
+			errorDiscipline(c, "C19.R5", "hook."+hn, c.Method(hookPkg, "BridgeHook", hn), PO{Params: []string{"h", "ctx", "bridgeId", "cfg"}, NoInline: []string{"hasPermChannels"}, Pure: []string{"hasPermChannels"}, Visits: 3})
+		}
+	})
+
 	c.Rule("C19.R4", func() {
 		type hk struct{ handler, hook, challenger string }
 		for _, h := range []hk{
